@@ -7,6 +7,7 @@ ASSUMPTIONS = [
     "covered readers of module-level caches: _SetIndexPost._divisions (divisions_lru), _get_divisions, _get_mem_usages (C15 harnesses show a miss recomputes)",
     "by-product (concrete, no solver): every form (logical / optimised / lowered) of the F01 family and of quantile-planned set_index / sort_values queries is pickled, all "
     "module caches and the singleton table are emptied, and the unpickled collection must agree in name, schema, divisions and result",
+    "by-product (concrete): a set of collections (in-memory, quantile-planned, parquet-backed through a relative path) is unpickled by a fresh interpreter with another working directory and hash seed and must agree with the sender",
     "OUTSIDE the claim: the pickle byte-level round trip, _BackendData.__reduce__, FragmentWrapper packing (C code); the public-API replay of a counterexample does use pickle",
 ]
 
@@ -30,6 +31,10 @@ def run(tier, only=None):
         progs.append(Program(text, [Src("L", 6, K, 2, index=(4, 0, 5, 2, 1, 3), sort=False)], ordered=False, family="F16", note="unsorted-source-nosort"))
     pr, pinfo = pfam.run(progs, prun.check_reconstruct, only)
     results += pr
+    if not only or "crossproc" in only:
+        from .. import crossproc
+
+        results += crossproc.run(tier)
     info.update({k: v for k, v in pinfo.items() if k not in ("samples",)})
     info["states"] = max(1, len(results))
     info["transitions"] = max(1, sum(r.queries for r in results))
